@@ -1,14 +1,16 @@
-(* Documents (element structure to any depth) through the parser and back, on the sequence machine.
+(* Documents (element structure to any depth) through the parser and back, over an abstract per-element machine.
    parse : build the element of the tag, parse every child, attach the children with add_child in file order (ids = positions);
            a missing class or a rejected child aborts.
    emit  : to_string: refused unless the final check passes at every node; children in the schema-ordered view.
-   Theorem: a document whose every node's child tags form a word of the node's content model is parsed, and emitting the result
-   gives back exactly that document (same elements, same order, same nesting). *)
-From MX Require Import Spec.Particle Spec.Deriv Model.AbsSeq Model.AbsSeqC02 Model.Classes Model.SeqMachine Model.SeqIds.
+   The machine of a tag (fresh state, feeding a list of children, final check, schema-ordered view) is a parameter with three laws, proved
+   below for the sequence machine and the bag machine:
+     good  : a word of the tag's language is accepted, passes the final check and is kept in order WITH its identities (C02);
+     perm  : whatever is accepted is kept, up to order (C06);
+     sound : in a consistent state a passing final check means a word of the language (C01). *)
+From MX Require Import Spec.Particle Spec.Deriv Model.AbsSeq Model.AbsSeqC02 Model.Classes Model.SeqMachine Model.SeqIds Model.AbsBag.
 From Coq Require Import Arith Lia Permutation.
 
 Inductive xdoc := XNode (tag:positive) (kids:list xdoc).
-Inductive elt := ENode (tag:positive) (state:sst) (children:list elt).
 Definition tag_of (d:xdoc) : positive := match d with XNode t _ => t end.
 Section xdoc_ind2.
   Variable P : xdoc -> Prop.
@@ -16,118 +18,70 @@ Section xdoc_ind2.
   Fixpoint xdoc_ind2 (d:xdoc) : P d :=
     match d with XNode t k => H t k ((fix go (l:list xdoc) : Forall P l := match l with [] => Forall_nil P | x :: r => Forall_cons x (xdoc_ind2 x) (go r) end) k) end.
 End xdoc_ind2.
+Lemma all_some_map_Some {A} (l:list A) : all_some (map Some l) = Some l.
+Proof. induction l; simpl; auto. rewrite IHl. reflexivity. Qed.
+Lemma all_some_spec {A} (l:list (option A)) r : all_some l = Some r -> Forall2 (fun o x => o = Some x) l r.
+Proof.
+  revert r. induction l as [|o l IH]; simpl; intros r E.
+  - injection E as <-. constructor.
+  - destruct o as [x|]; [|discriminate]. destruct (all_some l) as [r'|]; [|discriminate]. injection E as <-. constructor; auto.
+Qed.
 
 Section Doc.
-  Variable tpl : positive -> option stree.
+  Variable S : Type.
+  Variable start : positive -> option S.
+  Variable feed : list positive -> S -> option S.
+  Variable fin : S -> bool.
+  Variable ord : S -> list (nat * positive).
+  Variable L : positive -> list positive -> Prop.
+  Variable okst : positive -> S -> Prop.
+  Inductive elt := ENode (tag:positive) (state:S) (children:list elt).
   Fixpoint parse (d:xdoc) : option elt :=
     match d with XNode tag kids =>
-      match tpl tag with
+      match start tag with
       | None => None
-      | Some t => match all_some (map parse kids) with
-                  | None => None
-                  | Some es => match addw (map tag_of kids) 0 (init t) with Some s => Some (ENode tag s es) | None => None end end end end.
+      | Some s0 => match all_some (map parse kids) with
+                   | None => None
+                   | Some es => match feed (map tag_of kids) s0 with Some s => Some (ENode tag s es) | None => None end end end end.
   Definition pick (ds:list (option xdoc)) (p:nat*positive) : option xdoc := match nth_error ds (fst p) with Some (Some d) => Some d | _ => None end.
   Fixpoint emit (e:elt) : option xdoc :=
     match e with ENode tag s es =>
-      match required true s with
-      | [] => option_map (XNode tag) (all_some (map (pick (map emit es)) (ordered s)))
-      | _ => None end end.
+      if fin s then option_map (XNode tag) (all_some (map (pick (map emit es)) (ord s))) else None end.
   Fixpoint valid (d:xdoc) : Prop :=
     match d with XNode tag kids =>
-      (exists t, tpl tag = Some t /\ wf_t t = true /\ NoDup (alpha_t t) /\ Lang (re_of_s t) (map tag_of kids))
+      (start tag <> None /\ L tag (map tag_of kids))
       /\ (fix all (l:list xdoc) : Prop := match l with [] => True | k :: r => valid k /\ all r end) kids end.
-
-  Lemma all_some_map_Some {A} (l:list A) : all_some (map Some l) = Some l.
-  Proof. induction l; simpl; auto. rewrite IHl. reflexivity. Qed.
   Lemma pick_tagged (kids:list xdoc) : forall n (pre:list xdoc) w, length w = length kids -> n = length pre ->
     all_some (map (pick (map Some (pre ++ kids))) (tagged n w)) = Some kids.
   Proof.
-    induction kids as [|k r IH]; intros n pre w L N; destruct w as [|a w]; simpl in L; try discriminate; auto.
+    induction kids as [|k r IH]; intros n pre w Ln N; destruct w as [|a w]; simpl in Ln; try discriminate; auto.
     unfold tagged. simpl. unfold pick at 1. simpl fst.
     replace (nth_error (map Some (pre ++ k :: r)) n) with (Some (Some k)).
     2:{ rewrite nth_error_map, nth_error_app2 by lia. rewrite N, Nat.sub_diag. reflexivity. }
-    specialize (IH (S n) (pre ++ [k]) w). rewrite <- app_assoc in IH. simpl in IH. unfold tagged in IH. rewrite IH; auto.
+    specialize (IH (Datatypes.S n) (pre ++ [k]) w). rewrite <- app_assoc in IH. simpl in IH. unfold tagged in IH. rewrite IH; auto.
     rewrite app_length. simpl. lia.
   Qed.
+
+  (* ---- valid documents are read and re-emitted identically ---- *)
+  Hypothesis good : forall tag s0 w, start tag = Some s0 -> L tag w -> exists s, feed w s0 = Some s /\ fin s = true /\ ord s = tagged 0 w.
   Theorem doc_roundtrip : forall d, valid d -> exists e, parse d = Some e /\ emit e = Some d.
   Proof.
-    induction d using xdoc_ind2. intros [(st & T & W & ND & L) VK].
+    induction d using xdoc_ind2. intros [(T & Lw) VK].
     assert (K: exists es, all_some (map parse k) = Some es /\ map emit es = map Some k).
     { clear -H VK. induction H as [|x r Hx Hr IH]; simpl.
       - exists []. auto.
       - destruct VK as [Vx Vr]. destruct (Hx Vx) as (e & Pe & Ee). destruct (IH Vr) as (es & Pes & Ees).
         exists (e :: es). rewrite Pe, Pes. simpl. rewrite Ee, Ees. auto. }
-    destruct K as (es & Pes & Ees).
-    destruct (C02_seq_ids st W ND (map tag_of k) 0 L) as (s & A & R & O).
-    exists (ENode t s es). simpl. rewrite T, Pes, A. split; auto. rewrite R, O, Ees.
+    destruct K as (es & Pes & Ees). destruct (start t) as [s0|] eqn:St; [|contradiction].
+    destruct (good t s0 (map tag_of k) St Lw) as (s & A & R & O).
+    exists (ENode t s es). simpl. rewrite St, Pes, A. split; auto. rewrite R, O, Ees.
     pose proof (pick_tagged k 0 [] (map tag_of k) (map_length _ _) eq_refl) as PT. simpl in PT. rewrite PT. reflexivity.
   Qed.
 
-  (* ---- the library's own output: whatever emit produces from a consistent element tree is a valid document ---- *)
-  Definition etag (e:elt) : positive := match e with ENode t _ _ => t end.
-  (* consistent: the state is a reachable state of the tag's template, and every (id, name) of the schema-ordered view points at a child
-     with that tag (what add_child maintains: the id is the child's position in the insertion list) *)
-  Fixpoint elt_ok (e:elt) : Prop :=
-    match e with ENode tag s es =>
-      (exists t, tpl tag = Some t /\ wf_t t = true /\ NoDup (alpha_t t) /\ Inv s /\ shape s = t)
-      /\ (forall p, In p (ordered s) -> exists c, nth_error es (fst p) = Some c /\ etag c = snd p)
-      /\ (fix all (l:list elt) : Prop := match l with [] => True | c :: r => elt_ok c /\ all r end) es end.
-  Section elt_ind2.
-    Variable P : elt -> Prop.
-    Hypothesis H : forall t s k, Forall P k -> P (ENode t s k).
-    Fixpoint elt_ind2 (e:elt) : P e :=
-      match e with ENode t s k => H t s k ((fix go (l:list elt) : Forall P l := match l with [] => Forall_nil P | x :: r => Forall_cons x (elt_ind2 x) (go r) end) k) end.
-  End elt_ind2.
-  Lemma emit_tag e d : emit e = Some d -> tag_of d = etag e.
-  Proof. destruct e as [t s es]. simpl. destruct (required true s); [|discriminate]. destruct (all_some _); simpl; [|discriminate]. intros E. injection E as <-. reflexivity. Qed.
-  Lemma all_some_spec {A} (l:list (option A)) r : all_some l = Some r -> Forall2 (fun o x => o = Some x) l r.
-  Proof.
-    revert r. induction l as [|o l IH]; simpl; intros r E.
-    - injection E as <-. constructor.
-    - destruct o as [x|]; [|discriminate]. destruct (all_some l) as [r'|]; [|discriminate]. injection E as <-. constructor; auto.
-  Qed.
-  Theorem emitted_is_valid : forall e, elt_ok e -> forall d, emit e = Some d -> valid d.
-  Proof.
-    induction e using elt_ind2. intros [(st & T & W & ND & I & Sh) [C OK]] d E. simpl in E.
-    destruct (required true s) eqn:R; [|discriminate].
-    destruct (all_some (map (pick (map emit k)) (ordered s))) as [kids|] eqn:A; [|discriminate]. injection E as <-.
-    apply all_some_spec in A.
-    (* every picked kid is the emission of a consistent child with the recorded tag *)
-    assert (K: Forall2 (fun p kd => tag_of kd = snd p /\ valid kd) (ordered s) kids).
-    { assert (Sub: forall l kids0, (forall p, In p l -> In p (ordered s)) -> Forall2 (fun o x => o = Some x) (map (pick (map emit k)) l) kids0 ->
-                   Forall2 (fun p kd => tag_of kd = snd p /\ valid kd) l kids0).
-      { induction l as [|p l IHl]; intros kids0 Incl F; inversion F as [|o x l' r' H3 Hr]; subst; constructor.
-        - destruct (C p (Incl p (or_introl eq_refl))) as (c & Nc & Tc). unfold pick in H3. rewrite nth_error_map, Nc in H3. simpl in H3.
-          destruct (emit c) as [dc|] eqn:Ec; [|discriminate]. injection H3 as <-.
-          split; [rewrite (emit_tag c dc Ec); exact Tc|].
-          assert (Ic: In c k) by (eapply nth_error_In; eauto). rewrite Forall_forall in H. apply (H c Ic); auto.
-          clear -OK Ic. induction k as [|x r IHr]; [destruct Ic|]. destruct OK as [Ox Or]. destruct Ic as [<-|Ic]; auto.
-        - apply IHl; [|exact Hr]. intros q Hq. apply Incl. right. exact Hq. }
-      apply Sub; auto. }
-    simpl. split.
-    - exists st. repeat split; auto. subst st.
-      assert (N: map tag_of kids = names (ordered s)).
-      { clear -K. induction K as [|p kd l kids0 [Hp _] _ IH]; simpl; auto. unfold names in *. simpl. congruence. }
-      rewrite N. apply required_sound; auto.
-    - clear -K. induction K as [|p kd l kids0 [_ Hv] _ IH]; simpl; auto.
-  Qed.
-  (* C08 at document level: what the library emits is read back by the parser as an element that emits the same document *)
-  Theorem emitted_roundtrips : forall e d, elt_ok e -> emit e = Some d -> exists e', parse d = Some e' /\ emit e' = Some d.
-  Proof. intros e d O E. apply doc_roundtrip. eapply emitted_is_valid; eauto. Qed.
-
-  (* ---- any document, valid or not: if the parser returns and the result serialises, nothing was lost, invented or moved to another
-     parent: at every node the emitted children are a permutation of the children read (each related recursively) ---- *)
+  (* ---- any document: nothing is lost, invented or moved to another parent ---- *)
+  Hypothesis perm : forall tag s0 w s, start tag = Some s0 -> feed w s0 = Some s -> Permutation (ord s) (tagged 0 w).
   Inductive same_content : xdoc -> xdoc -> Prop :=
   | SC t k k' k'' : Forall2 same_content k k'' -> Permutation k'' k' -> same_content (XNode t k) (XNode t k').
-  Lemma addw_perm w : forall n s s', addw w n s = Some s' -> Permutation (ordered s') (ordered s ++ tagged n w).
-  Proof.
-    induction w as [|a w IH]; intros n s s' E; simpl in E.
-    - injection E as <-. unfold tagged. simpl. rewrite app_nil_r. apply Permutation_refl.
-    - destruct (add n a s) as [s1|] eqn:E1; [|discriminate]. specialize (IH _ _ _ E).
-      eapply Permutation_trans; [exact IH|]. unfold tagged. simpl.
-      eapply Permutation_trans; [apply Permutation_app_tail; apply ordered_add; exact E1|]. simpl.
-      apply Permutation_middle.
-  Qed.
   Lemma pick_perm (ds:list (option xdoc)) : forall l1 l2, Permutation l1 l2 -> forall r1, all_some (map (pick ds) l1) = Some r1 ->
     exists r2, all_some (map (pick ds) l2) = Some r2 /\ Permutation r1 r2.
   Proof.
@@ -142,12 +96,11 @@ Section Doc.
   Theorem parse_loses_nothing : forall d e d', parse d = Some e -> emit e = Some d' -> same_content d d'.
   Proof.
     induction d using xdoc_ind2. intros e d' P E. simpl in P.
-    destruct (tpl t) as [st|]; [|discriminate]. destruct (all_some (map parse k)) as [es|] eqn:Pes; [|discriminate].
-    destruct (addw (map tag_of k) 0 (init st)) as [s|] eqn:A; [|discriminate]. injection P as <-. simpl in E.
-    destruct (required true s); [|discriminate]. destruct (all_some (map (pick (map emit es)) (ordered s))) as [kids|] eqn:Pk; [|discriminate]. injection E as <-.
-    pose proof (addw_perm _ _ _ _ A) as Perm. rewrite (nonempty_false_ordered _ (nonempty_init st)) in Perm. simpl in Perm.
+    destruct (start t) as [s0|] eqn:St; [|discriminate]. destruct (all_some (map parse k)) as [es|] eqn:Pes; [|discriminate].
+    destruct (feed (map tag_of k) s0) as [s|] eqn:A; [|discriminate]. injection P as <-. simpl in E.
+    destruct (fin s); [|discriminate]. destruct (all_some (map (pick (map emit es)) (ord s))) as [kids|] eqn:Pk; [|discriminate]. injection E as <-.
+    pose proof (perm t s0 _ s St A) as Perm.
     destruct (pick_perm (map emit es) _ _ Perm kids Pk) as (kids0 & Pk0 & Q).
-    (* in file order every child was parsed and emits: kids0 are those emissions *)
     apply all_some_spec in Pes. apply all_some_spec in Pk0.
     assert (G: forall (k0:list xdoc) es0 (pre:list elt) n kids1, Forall (fun x => forall e d', parse x = Some e -> emit e = Some d' -> same_content x d') k0 ->
                Forall2 (fun o x => o = Some x) (map parse k0) es0 -> n = length pre ->
@@ -158,9 +111,106 @@ Section Doc.
         unfold pick in Hp. simpl in Hp. rewrite nth_error_map, nth_error_app2 in Hp by lia. rewrite Nat.sub_diag in Hp. simpl in Hp.
         destruct (emit e0) as [de|] eqn:Ee; [|discriminate]. injection Hp as <-.
         constructor; [apply (Hx e0 de); auto|].
-        apply (IHr es1 (pre ++ [e0]) (S (length pre)) kids2); auto.
+        apply (IHr es1 (pre ++ [e0]) (Datatypes.S (length pre)) kids2); auto.
         + rewrite app_length. simpl. lia.
         + rewrite <- app_assoc. simpl. exact Hk. }
     econstructor; [|apply Permutation_sym; exact Q]. apply (G k es [] 0 kids0); auto.
   Qed.
+
+  (* ---- the library's own output: whatever emit produces from a consistent element tree is a valid document ---- *)
+  Hypothesis sound : forall tag s, okst tag s -> fin s = true -> L tag (names (ord s)).
+  Definition etag (e:elt) : positive := match e with ENode t _ _ => t end.
+  (* consistent: the state is a reachable state of the tag's machine, and every (id, name) of the schema-ordered view points at a child
+     with that tag (what add_child maintains: the id is the child's position in the insertion list) *)
+  Fixpoint elt_ok (e:elt) : Prop :=
+    match e with ENode tag s es =>
+      (start tag <> None /\ okst tag s)
+      /\ (forall p, In p (ord s) -> exists c, nth_error es (fst p) = Some c /\ etag c = snd p)
+      /\ (fix all (l:list elt) : Prop := match l with [] => True | c :: r => elt_ok c /\ all r end) es end.
+  Section elt_ind2.
+    Variable P : elt -> Prop.
+    Hypothesis H : forall t s k, Forall P k -> P (ENode t s k).
+    Fixpoint elt_ind2 (e:elt) : P e :=
+      match e with ENode t s k => H t s k ((fix go (l:list elt) : Forall P l := match l with [] => Forall_nil P | x :: r => Forall_cons x (elt_ind2 x) (go r) end) k) end.
+  End elt_ind2.
+  Lemma emit_tag e d : emit e = Some d -> tag_of d = etag e.
+  Proof. destruct e as [t s es]. simpl. destruct (fin s); [|discriminate]. destruct (all_some _); simpl; [|discriminate]. intros E. injection E as <-. reflexivity. Qed.
+  Theorem emitted_is_valid : forall e, elt_ok e -> forall d, emit e = Some d -> valid d.
+  Proof.
+    induction e using elt_ind2. intros [(T & I) [C OK]] d E. simpl in E.
+    destruct (fin s) eqn:R; [|discriminate].
+    destruct (all_some (map (pick (map emit k)) (ord s))) as [kids|] eqn:A; [|discriminate]. injection E as <-.
+    apply all_some_spec in A.
+    assert (K: Forall2 (fun p kd => tag_of kd = snd p /\ valid kd) (ord s) kids).
+    { assert (Sub: forall l kids0, (forall p, In p l -> In p (ord s)) -> Forall2 (fun o x => o = Some x) (map (pick (map emit k)) l) kids0 ->
+                   Forall2 (fun p kd => tag_of kd = snd p /\ valid kd) l kids0).
+      { induction l as [|p l IHl]; intros kids0 Incl F; inversion F as [|o x l' r' H3 Hr]; subst; constructor.
+        - destruct (C p (Incl p (or_introl eq_refl))) as (c & Nc & Tc). unfold pick in H3. rewrite nth_error_map, Nc in H3. simpl in H3.
+          destruct (emit c) as [dc|] eqn:Ec; [|discriminate]. injection H3 as <-.
+          split; [rewrite (emit_tag c dc Ec); exact Tc|].
+          assert (Ic: In c k) by (eapply nth_error_In; eauto). rewrite Forall_forall in H. apply (H c Ic); auto.
+          clear -OK Ic. induction k as [|x r IHr]; [destruct Ic|]. destruct OK as [Ox Or]. destruct Ic as [<-|Ic]; auto.
+        - apply IHl; [|exact Hr]. intros q Hq. apply Incl. right. exact Hq. }
+      apply Sub; auto. }
+    simpl. split.
+    - split; auto.
+      assert (N: map tag_of kids = names (ord s)).
+      { clear -K. induction K as [|p kd l kids0 [Hp _] _ IH]; simpl; auto. unfold names in *. simpl. congruence. }
+      rewrite N. apply sound; auto.
+    - clear -K. induction K as [|p kd l kids0 [_ Hv] _ IH]; simpl; auto.
+  Qed.
+  Theorem emitted_roundtrips : forall e d, elt_ok e -> emit e = Some d -> exists e', parse d = Some e' /\ emit e' = Some d.
+  Proof. intros e d O E. apply doc_roundtrip. eapply emitted_is_valid; eauto. Qed.
 End Doc.
+
+(* ---- the machines of the two classes, as one state type ---- *)
+Inductive ntpl := TSeq (t:stree) | TBag (alpha:list positive) (mn:nat).
+Inductive nstate := NSeq (s:sst) | NBag (alpha:list positive) (mn:nat) (items:list (nat*positive)).
+Definition nstart (t:ntpl) : nstate := match t with TSeq t => NSeq (init t) | TBag a mn => NBag a mn [] end.
+Definition nfeed (w:list positive) (s:nstate) : option nstate :=
+  match s with
+  | NSeq s => option_map NSeq (addw w 0 s)
+  | NBag a mn it => if forallb (fun x => mem_pos x a) w then Some (NBag a mn (it ++ tagged (length it) w)) else None end.
+Definition nfin (s:nstate) : bool :=
+  match s with NSeq s => match required true s with [] => true | _ => false end
+             | NBag a mn it => Nat.eqb mn 0 || negb (Nat.eqb (length it) 0) end.
+Definition nord (s:nstate) : list (nat*positive) := match s with NSeq s => ordered s | NBag _ _ it => it end.
+Definition nlang (t:ntpl) (w:list positive) : Prop :=
+  match t with TSeq t => Lang (re_of_s t) w | TBag a mn => mn <= length w /\ Forall (fun s => In s a) w end.
+Definition ntpl_ok (t:ntpl) : Prop := match t with TSeq t => wf_t t = true /\ NoDup (alpha_t t) | TBag a mn => mn <= 1 end.
+Definition nst_ok (t:ntpl) (s:nstate) : Prop :=
+  match t, s with
+  | TSeq t, NSeq s => Inv s /\ shape s = t
+  | TBag a mn, NBag a' mn' it => a' = a /\ mn' = mn /\ mn <= 1 /\ Forall (fun x => In (snd x) a) it
+  | _, _ => False end.
+Lemma addw_perm w : forall n s s', addw w n s = Some s' -> Permutation (ordered s') (ordered s ++ tagged n w).
+Proof.
+  induction w as [|a w IH]; intros n s s' E; simpl in E.
+  - injection E as <-. unfold tagged. simpl. rewrite app_nil_r. apply Permutation_refl.
+  - destruct (add n a s) as [s1|] eqn:E1; [|discriminate]. specialize (IH _ _ _ E).
+    eapply Permutation_trans; [exact IH|]. unfold tagged. simpl.
+    eapply Permutation_trans; [apply Permutation_app_tail; apply ordered_add; exact E1|]. simpl. apply Permutation_middle.
+Qed.
+Lemma ngood t : ntpl_ok t -> forall w, nlang t w -> exists s, nfeed w (nstart t) = Some s /\ nfin s = true /\ nord s = tagged 0 w.
+Proof.
+  destruct t as [t|a mn]; simpl; intros K w Lw.
+  - destruct K as [W ND]. destruct (C02_seq_ids t W ND w 0 Lw) as (s & A & R & O). exists (NSeq s). simpl. rewrite A, R. auto.
+  - destruct Lw as [Ln F]. assert (FB: forallb (fun x => mem_pos x a) w = true) by (apply forallb_forall; intros x Hx; apply mem_pos_In; rewrite Forall_forall in F; auto).
+    rewrite FB. eexists; split; [reflexivity|]. simpl. split; auto.
+    unfold tagged. rewrite combine_length, seq_length, Nat.min_id. destruct mn as [|[|?]]; simpl; auto; try lia. destruct (length w); simpl; auto; lia.
+Qed.
+Lemma nperm t w s : nfeed w (nstart t) = Some s -> Permutation (nord s) (tagged 0 w).
+Proof.
+  destruct t as [t|a mn]; simpl.
+  - destruct (addw w 0 (init t)) as [s'|] eqn:A; simpl; [|discriminate]. intros E. injection E as <-. simpl.
+    pose proof (addw_perm _ _ _ _ A) as P. rewrite (nonempty_false_ordered _ (nonempty_init t)) in P. exact P.
+  - destruct (forallb (fun x => mem_pos x a) w); [|discriminate]. intros E. injection E as <-. simpl. apply Permutation_refl.
+Qed.
+Lemma nsound t s : nst_ok t s -> nfin s = true -> nlang t (names (nord s)).
+Proof.
+  destruct t as [t|a mn], s as [s|a' mn' it]; simpl; try contradiction.
+  - intros [I Sh] R. subst t. apply required_sound; auto. destruct (required true s); auto; discriminate.
+  - intros (-> & -> & M & F) R. unfold names. rewrite map_length. split.
+    + apply orb_true_iff in R as [R|R]; [apply Nat.eqb_eq in R; lia|]. apply negb_true_iff in R. apply Nat.eqb_neq in R. lia.
+    + apply Forall_forall. intros x Hx. apply in_map_iff in Hx as (p & <- & Hp). rewrite Forall_forall in F. auto.
+Qed.
